@@ -33,11 +33,26 @@ class TNOps(TNCtor):
             worst = max(worst, dn.isometry_defect(site_matrix(np.asarray(A), o.kind, mode)))
         return self.check(worst <= ISO_TOL, props, clause, lambda: f'site tensors are not {mode}-isometries: max defect {worst:.3e}')
 
+    def transient_extreme(self, o, op):
+        """Same object, tensors of extreme but compensating magnitude (exact powers of two); every in-place
+        algorithm starts with a QR sweep that re-balances it, so no extreme object stays in the pool."""
+        if op.get('extreme') and len(o.ref.A) >= 2 and not any(np.issubdtype(a.dtype, np.integer) for a in o.ref.A) \
+                and not any(o.ref.A[i] is o.ref.A[j] for i in range(len(o.ref.A)) for j in range(i)) \
+                and not any(x is not o and any(np.may_share_memory(a, b) for a in x.ref.A for b in o.ref.A) for x in self.live()):
+            e = 560
+            o.ref.A[0] = o.ref.A[0] * 2.0 ** -e
+            o.ref.A[-1] = o.ref.A[-1] * 2.0 ** e
+            self.resync(o)
+            self.probe('transient_extreme_magnitudes')
+            return True
+        return False
+
     def op_orthonormalize(self, op):
         o = self.pick(op['sel'], op.get('kind', 'mps'))
         if o is None:
             return 'skipped'
         mode = op['mode']
+        self.transient_extreme(o, op)
         v = o.dense.copy()
         sc = o.scale
         nv = float(np.linalg.norm(v))
@@ -109,6 +124,9 @@ class TNOps(TNCtor):
         what = op['what']
         # objects sharing tensor memory with the target (user level aliasing) see in-place edits too
         siblings = [x for x in self.live() if x is not o and any(np.may_share_memory(a, b) for a in x.ref.A for b in r.A)]
+        dense_before = o.dense.copy() if o.dense is not None else None
+        scale_before = o.scale
+        harness_shared = '+uniform' in o.tag
         bax = 2 if o.kind == 'mps' else 3   # right bond axis
         g = np.random.Generator(np.random.PCG64(op['sub']))
         f = cplx(op.get('factor', 2.0))
@@ -152,6 +170,7 @@ class TNOps(TNCtor):
                     hits += 1
             if not hits:
                 return 'skipped'
+            o.tag += '+uniform'
             self.probe('shared_tensor_on_several_sites')
         elif what == 'unbalance':
             # same object, extremely unbalanced tensors (exact powers of two)
@@ -210,6 +229,13 @@ class TNOps(TNCtor):
         for x in siblings:
             x.traj = None
             self.resync(x)
+        if what in ('scale', 'scale_inplace', 'nearly_one') and dense_before is not None and not o.retired and not harness_shared:
+            # history refinement: rescaling ONE site tensor rescales the denoted vector / operator by that factor
+            # (fails when the library handed out an object whose sites share one array)
+            ftrue = f if what != 'nearly_one' else [1.0 + 2.0 ** -19, 1.0 - 2.0 ** -21, 1.0 + 2.0 ** -30][int(op['sub']) % 3]
+            dev = float(np.linalg.norm(o.dense - ftrue * dense_before))
+            self.check(dev <= TOL * max(scale_before * abs(ftrue), float(np.linalg.norm(dense_before))), 'C03', 'site_edit_is_local',
+                       lambda: f'{o.kind} ({o.tag}): after scaling site {i} by {ftrue!r} the dense form differs from factor*previous by {dev:.3e}')
         return 'ok'
 
     def first_cut_keep(self, v, mode, tol):
@@ -660,6 +686,17 @@ class TNOps(TNCtor):
         if st != 'ok':
             return st
         BL, BR = res
+        # history: the returned blocks belong to the caller; writing into them must not influence a later call
+        keep = [np.array(b) for b in BR]
+        for b in BR:
+            if isinstance(b, np.ndarray) and b.flags.writeable:
+                b *= 1.5
+        st2, BR2 = self._read(op, (psi, H), lambda: ptn.compute_right_operator_blocks(psi.ref, H.ref), ('C04',))
+        if st2 != 'ok':
+            return st2
+        same = len(BR2) == len(keep) and all(np.shape(x) == np.shape(y) and np.allclose(x, y, rtol=1e-12, atol=0) for x, y in zip(BR2, keep))
+        self.check(same, 'C04', 'blocks_independent_of_earlier_results', 'compute_right_operator_blocks returned different blocks after the caller wrote into the blocks of an earlier call')
+        BR = [np.array(b) for b in keep]
         An = [float(np.linalg.norm(a)) or 1.0 for a in A]
         hsc = H.scale
 
